@@ -28,7 +28,7 @@ def gen_defs(rng, n, **kw):
 
 
 def generate(rng, tier):
-    ndefs = 12 if tier == "quick" else 600
+    ndefs = 12 if tier == "quick" else 2500
     for d in gen_defs(rng, ndefs):
         dsx = sx(d.sexpr())
         paths = d.paths()
